@@ -320,6 +320,11 @@ class Explorer:
                     setattr(new, f, rb(v, shadow))
                 elif isinstance(v, list):
                     setattr(new, f, [rb(x, shadow) if isinstance(x, ast.AST) else x for x in v])
+            if isinstance(new, ast.Subscript) and isinstance(new.ctx, ast.Load) and isinstance(new.value, ast.Name) and new.value.id not in store and new.value.id not in shadow and self.fold_constants and self._stack:
+                # a module-level dispatch table indexed by a key that is known on this path: TABLE[key] reads as its entry
+                ent = self._table_entry(new.value.id, new.slice, st)
+                if ent is not None:
+                    return ent
             if isinstance(new, (ast.Subscript, ast.Attribute)) and isinstance(getattr(new, "ctx", None), ast.Load):
                 return self._simplify(new)
             if isinstance(new, ast.JoinedStr):
@@ -364,6 +369,53 @@ class Explorer:
         if _size(out) > 1500:
             return ast.Call(func=ast.Name(id=BIG, ctx=ast.Load()), args=[ast.Constant(value=unparse(node)[:60])], keywords=[])
         return out
+
+    def _table_entry(self, name: str, key: ast.AST, st: "_State"):
+        """the value of `NAME[key]` for a module-level dictionary display NAME = {k1: v1, …} (bound once, at least two
+        entries, never mutated in the module) when the key is decided on this path: it is spelled like exactly one of the
+        keys, or it is a test / a tuple of tests that fold to constants, or the oracle / the known facts decide
+        `key == k` for exactly one k.  None when the table or the key is not known"""
+        fi = self._stack[-1]
+        ck = ("table", fi.module.name, name)
+        if ck not in self._scalars:
+            node = None
+            f_ = fi
+            local = False
+            while f_ is not None:
+                if name in f_.param_names() or name in _bound_names(f_.node.body):
+                    local = True
+                    break
+                f_ = getattr(f_, "parent", None)
+            if not local:
+                defs = [x for x in fi.module.tree.body if (isinstance(x, ast.Assign) and any(isinstance(t, ast.Name) and t.id == name for t in x.targets)) or (isinstance(x, ast.AnnAssign) and isinstance(x.target, ast.Name) and x.target.id == name and x.value is not None)]
+                mutated = any((isinstance(y, ast.Subscript) and isinstance(y.ctx, (ast.Store, ast.Del)) and isinstance(y.value, ast.Name) and y.value.id == name) or (isinstance(y, ast.Call) and isinstance(y.func, ast.Attribute) and isinstance(y.func.value, ast.Name) and y.func.value.id == name and y.func.attr in ("update", "pop", "setdefault", "clear", "popitem")) for y in ast.walk(fi.module.tree))
+                if len(defs) == 1 and isinstance(defs[0].value, ast.Dict) and len(defs[0].value.keys) >= 2 and all(k is not None for k in defs[0].value.keys) and not mutated:
+                    node = defs[0].value
+            self._scalars[ck] = node
+        table = self._scalars[ck]
+        if table is None:
+            return None
+
+        def const_of(e):
+            if isinstance(e, ast.Constant):
+                return e
+            if isinstance(e, ast.Tuple):
+                parts = [const_of(x) for x in e.elts]
+                return ast.Tuple(elts=parts, ctx=ast.Load()) if all(q is not None for q in parts) else None
+            d = self.decide(e, st) if isinstance(e, (ast.Compare, ast.BoolOp, ast.UnaryOp, ast.Call)) else None
+            return ast.Constant(value=d) if d is not None else None
+
+        ktxt = unparse(key)
+        hits = [v for k, v in zip(table.keys, table.values) if unparse(k) == ktxt]
+        if len(hits) != 1:
+            ck_ = const_of(key)
+            if ck_ is not None:
+                hits = [v for k, v in zip(table.keys, table.values) if unparse(k) == unparse(ck_)]
+        if len(hits) != 1:
+            verdicts = [self.decide(ast.Compare(left=key, ops=[ast.Eq()], comparators=[k]), st) for k in table.keys]
+            if sum(1 for v in verdicts if v is True) == 1 and all(v is not None for v in verdicts):
+                hits = [v for v, d in zip(table.values, verdicts) if d is True]
+        return copy.deepcopy(hits[0]) if len(hits) == 1 else None
 
     def _never_none(self, call: ast.Call) -> bool:
         if not self._stack:
@@ -1126,6 +1178,16 @@ class Explorer:
                         hits = []
                     if len(hits) == 1:
                         funcs = hits
+                if len(funcs) != 1 and isinstance(c.func, ast.Subscript) and isinstance(c.func.value, ast.Name):
+                    # TABLE[key](…) with a key that is known on this path
+                    fsub = self.subst(c.func, st)
+                    if isinstance(fsub, ast.Name):
+                        try:
+                            hits = [h for h in self.prog.lookup(fi.module, fsub.id, fi.variant) if getattr(h, "kind", "") == "func"]
+                        except Exception:  # noqa: BLE001
+                            hits = []
+                        if len(hits) == 1:
+                            funcs = hits
                 if len(funcs) == 1 and funcs[0] not in self._stack and funcs[0] is not fi and self.inline(fi, c, funcs[0]):
                     targets = funcs[0]
             csub = self.subst(c, self._in_comprehension(c, st, fi, depth))
@@ -1264,8 +1326,9 @@ class Explorer:
         a = callee.node.args
         if callee.is_abstract or callee.is_property:
             return False
-        if callee.cls is not None and any(callee.name in sub.methods for sub in self.prog.subclasses(callee.cls)):
-            return False  # an override may be the real target
+        via_super = isinstance(call.func, ast.Attribute) and isinstance(call.func.value, ast.Call) and isinstance(call.func.value.func, ast.Name) and call.func.value.func.id == "super"
+        if callee.cls is not None and not via_super and any(callee.name in sub.methods for sub in self.prog.subclasses(callee.cls)):
+            return False  # an override may be the real target (super().m(…) names its target exactly)
         body = [x for x in callee.node.body if not (isinstance(x, ast.Expr) and isinstance(x.value, ast.Constant))]
         if not body or all(isinstance(x, ast.Pass) or (isinstance(x, ast.Raise) and "NotImplemented" in unparse(x)) for x in body):
             return False  # interface stub
@@ -1300,6 +1363,8 @@ class Explorer:
                 rd = dotted(recv) or ""
                 if rd and rd.split(".")[-1][:1].isupper() and len(args) >= 1 and not callee.is_classmethod and rd.split(".")[-1] in {c.name for c in self.prog.find_classes(rd.split(".")[-1])}:
                     called_on_class = True
+                elif isinstance(recv, ast.Call) and isinstance(recv.func, ast.Name) and recv.func.id == "super" and not recv.args and caller.param_names():
+                    binding[first] = ast.Name(id=caller.param_names()[0], ctx=ast.Load())  # super().m(…): the caller's own object
                 else:
                     binding[first] = recv
             if not called_on_class:
